@@ -506,6 +506,17 @@ fn run(case: &SfCase, out: &mut Outcome, want_trace: bool) {
         b = b.with_container_id(c);
     }
     let self_slot: Arc<Mutex<Option<Arc<StatsdClient>>>> = Arc::new(Mutex::new(None));
+    // the client's handler holds the slot and the slot holds the client: break the cycle on every
+    // way out of this function, or each run leaks its client, sink, plan and logs
+    struct ClearSlot(Arc<Mutex<Option<Arc<StatsdClient>>>>);
+    impl Drop for ClearSlot {
+        fn drop(&mut self) {
+            if let Ok(mut g) = self.0.lock() {
+                *g = None;
+            }
+        }
+    }
+    let _clear_slot = ClearSlot(self_slot.clone());
     let depth = Arc::new(std::sync::atomic::AtomicU32::new(0));
     if case.handler {
         let l2 = logs.clone();
